@@ -253,8 +253,14 @@ func runCheck(repo, prop, tier string) int {
 	// undecided obligations get reseeded retries with a longer budget
 	{
 		var retry []int
+		isKnownObl := map[string]bool{}
+		for _, k := range loadKnown() {
+			if k.Prop == prop {
+				isKnownObl[k.Obl] = true
+			}
+		}
 		for i, x := range results {
-			if x.Status == "undecided" && !x.Obl.ExpectSat {
+			if x.Status == "undecided" && !x.Obl.ExpectSat && !isKnownObl[x.Obl.Name] {
 				retry = append(retry, i)
 			}
 		}
@@ -305,10 +311,11 @@ func runCheck(repo, prop, tier string) int {
 			if k.Prop == prop && k.Obl == x.Obl.Name {
 				isKnown = true
 				knownHit = append(knownHit, x.Obl.Name)
-				fmt.Printf("KNOWN-FINDING: property=%s %s\n", prop, strings.TrimPrefix(k.Text, "finding: "))
+				fmt.Printf("KNOWN-FINDING: property=%s %s\n", prop, strings.TrimSpace(strings.TrimPrefix(strings.TrimSpace(strings.TrimPrefix(k.Text, "finding:")), "property="+prop)))
 			}
 		}
 		if isKnown {
+			nObl-- // reported separately: neither proved nor a new violation
 			continue
 		}
 		path, confirmed := writeReplay(w, prop, x)
